@@ -96,16 +96,61 @@ def enum_depth1(alpha, max_leaves=3, small=False):
     return composites(leaves(alpha), max_leaves, small=small)
 
 
-def enum_depth2(alpha_inner, alpha_outer, max_leaves=4):
-    """Root composite whose children are leaves or depth-1 composites (over alpha_inner, <= 2 leaves each)."""
-    inner = composites(leaves(alpha_inner), 2, switch_leaves=[L("succ", 0, 1)], small=True)
-    inner = [t for t in inner if nleaves(t) >= 1]
-    sub = leaves(alpha_outer) + inner
-    res = []
-    for t in composites(sub, max_leaves, switch_leaves=[L("succ", 0, 1), L("succ", 1, 0)], small=True):
-        if any(k is not None and k["kids"] for k in t["kids"]):
-            res.append(t)
+def sample_depth2(rnd, count, alpha_inner=LEAVES_MID, alpha_outer=LEAVES_SMALL, max_leaves=4):
+    """Seeded sample of depth-2 trees: a root composite whose children are leaves or depth-1 composites
+    (the full product has ~10^7 members, so it is sampled, never materialised)."""
+    inner = [t for t in composites(leaves(alpha_inner), 2, switch_leaves=[L("succ", 0, 1), L("fail", 1, 0)], small=True)
+             if nleaves(t) >= 1]
+    outer_leaves = leaves(alpha_outer)
+    res, seen = [], set()
+    guard = 0
+    while len(res) < count and guard < count * 50:
+        guard += 1
+        ar = rnd.choice((1, 1, 2, 2, 3))
+        kids = [clone(rnd.choice(inner)) if (i == 0 or rnd.random() < 0.4) else clone(rnd.choice(outer_leaves)) for i in range(ar)]
+        rnd.shuffle(kids)
+        if sum(nleaves(k) for k in kids) > max_leaves:
+            continue
+        cands = composites_over(kids)
+        if not cands:
+            continue
+        t = rnd.choice(cands)
+        key = repr(flatten(t))
+        if key in seen:
+            continue
+        seen.add(key)
+        res.append(t)
     return res
+
+
+def composites_over(kids):
+    """All composites that take exactly these children in this order."""
+    n = len(kids)
+    out = []
+    if n >= 1:
+        for m in SEQ_MODES:
+            out.append(Nd("Seq", m, kids))
+            out.append(Nd("Par", m, kids))
+    if n == 1:
+        for m in LOOP_MODES:
+            out.append(Nd("Loop", m, kids))
+        for m in REPEAT_MODES:
+            for k in (0, 1, 2):
+                out.append(Nd("Repeat", m, kids, n=k))
+        for m in WRAP_MODES:
+            out.append(Nd("Wrap", m, kids))
+        out.append(Nd("Comp", 0, kids))
+        out.append(Nd("Switch", 0, [L("succ", 0, 1), None, kids[0], None]))
+    if n == 2:
+        out.append(Nd("IfElse", 0, [kids[0], kids[1], None]))
+        out.append(Nd("IfElse", 0, [kids[0], None, kids[1]]))
+        out.append(Nd("IfThen", 0, kids))
+        out.append(Nd("LoopIf", 0, kids))
+        out.append(Nd("LoopIf", 1, kids))
+        out.append(Nd("Switch", 0, [L("succ", 1, 2), kids[0], None, kids[1]]))
+    if n == 3:
+        out.append(Nd("IfElse", 0, kids))
+    return [clone(t) for t in out]
 
 
 def with_timeouts(trees, rnd, frac_root=0.5):
@@ -188,12 +233,20 @@ def random_tree(rnd, depth, allow_real_leaves=True, p_timeout=0.12):
 
 
 def random_script(rnd, passes):
-    """Control script: start early, then up to 3 more calls at random passes."""
+    """Control script: start early, then up to 4 more calls at random passes; some entries are two calls made
+    back to back ("reset+start"), some are placed in the middle of a batch ("~stop")."""
     s = ["-"] * passes
     s[rnd.choice((0, 0, 0, 1))] = "start"
-    for _ in range(rnd.choice((0, 1, 2, 2, 3, 3))):
+    for _ in range(rnd.choice((0, 1, 2, 2, 3, 3, 4))):
         i = rnd.randrange(passes)
-        if s[i] == "-":
-            s[i] = rnd.choice(("pause", "pause", "resume", "resume", "stop", "reset", "start"))
-    # a pause is usually followed by a resume somewhere later
+        if s[i] != "-":
+            continue
+        r = rnd.random()
+        if r < 0.14:
+            e = rnd.choice(("reset+start", "reset+start", "stop+reset", "resume+pause", "pause+resume", "stop+reset+start", "resume+reset+start"))
+        else:
+            e = rnd.choice(("pause", "pause", "resume", "resume", "resume", "stop", "reset", "start"))
+        if rnd.random() < 0.2:
+            e = "~" + e
+        s[i] = e
     return s
